@@ -19,12 +19,12 @@
  *   mul <name> <cap> <P> <k>...           -> ok <kP> ...       ec_point_unknown_pt_mult
  *   mulbp <name> <cap> <k>...             -> ok <kG> ...       ec_point_mult_bp
  *   twinbp <name> <cap> <Q> <l> <k>...    -> ok <kG+lQ> ...    ec_point_twin_mult_bp
- *   twin <name> <cap> <P> <k> <Q> <l>...  -> ok <kP+lQ> ...    ec_point_twin_mult
+ *   twin <name> <cap> <P> <Q> <l> <k>...  -> ok <kP+lQ> ...    ec_point_twin_mult
  *   ladder <name> <cap> <P> <k>           -> ok <step> ...     left-to-right double-and-add for k*P done HERE with
  *                                            ec_point_add only; every intermediate point (after each doubling and each
  *                                            addition) is printed so that the reference can check the steps one by one
  *   chk <name> <P>...                     -> ok 0|-1 ...       ec_point_check_affine (0 = on curve)
- * Before every library call 64 KiB of stack are filled with 0xA5: locals the library forgets to initialise then hold
+ * Before every library call 32 KiB of stack are filled with 0xA5: locals the library forgets to initialise then hold
  * a defined non-zero pattern instead of whatever the previous call left there (results become reproducible).
  * A non-zero return code of the library is reported in place of the point as "err<rc>". */
 #include <sys/param.h>
@@ -112,8 +112,9 @@ static void pt_put(int rc, ec_point_p pt) {
 }
 
 static void __attribute__((noinline)) dirty_stack(void) {
-	volatile unsigned char junk[65536];
-	for (size_t i = 0; i < sizeof(junk); i++) junk[i] = 0xA5;
+	unsigned char junk[32768];
+	memset(junk, 0xA5, sizeof(junk));
+	__asm__ volatile("" : : "r"(junk) : "memory");       /* keep the store */
 }
 
 /* ---- curves ---- */
@@ -129,7 +130,8 @@ static ec_curve_p get_curve(const char *name, int *rc_ret) {
 		if (!strcmp(loaded_name[i], name)) { if (rc_ret) *rc_ret = loaded_rc[i]; return loaded[i]; }
 	for (i = 0; i < nitems(toy_curves); i++)
 		if (!strcmp(toy_curves[i].name, name)) cs = &toy_curves[i];
-	if (!cs) cs = ecdsa_curve_str_get_by_name(name, strlen(name));
+	for (i = 0; !cs && i < nitems(ec_curve_str); i++)      /* by table entry, not through the name_size column */
+		if (!strcmp(ec_curve_str[i].name, name)) cs = &ec_curve_str[i];
 	if (!cs || nloaded >= MAX_CURVES) { printf("FATAL unknown curve %s\n", name); exit(3); }
 	loaded[nloaded] = malloc(sizeof(ec_curve_t));
 	loaded_name[nloaded] = strdup(name);
@@ -276,8 +278,8 @@ int main(void) {
 		} else if (!strcmp(op, "twin")) {
 			for (i = 6; i < nt; i++) {
 				ec_point_t p, q, r; bn_t k, l;
-				pt_from_str(&p, pbits, tok[3]); bn_from_hex(&k, dbl_bits, tok[4]);
-				pt_from_str(&q, pbits, tok[5]); bn_from_hex(&l, dbl_bits, tok[i]);
+				pt_from_str(&p, pbits, tok[3]); pt_from_str(&q, pbits, tok[4]);
+				bn_from_hex(&l, dbl_bits, tok[5]); bn_from_hex(&k, dbl_bits, tok[i]);
 				pt_from_str(&r, pbits, "inf"); r.infinity = 0;
 				dirty_stack();
 				rc = ec_point_twin_mult(&p, &k, &q, &l, cv, &r);
